@@ -28,6 +28,14 @@ class MemPath:
     def exists(self):
         return self.is_dir or self.text is not None
 
+    def __truediv__(self, other):
+        # the directory holding the document, joined with something: an ordinary path from here on
+        import pathlib
+
+        if not self.is_dir:
+            raise TypeError("MemPath file / x")
+        return pathlib.Path("/memdoc") / other
+
     def mkdir(self, parents=False):
         return None
 
@@ -205,6 +213,15 @@ class Builder:
     def tag(self, k, v=None):
         return self.d.Tag(term=self.term(k), value=h.S(k if v is None else v, "val"))
 
+    def tags(self, *ks):
+        """a tag list whose ORDER differs from object to object and which repeats a tag every other time: list
+        order and multiplicity must not depend on the order in which the writer first met the tags"""
+        self.ntaglists = getattr(self, "ntaglists", 0) + 1
+        ks = list(ks)
+        if self.ntaglists % 2 == 0:
+            ks = ks[::-1] + ks[:1]
+        return [self.tag(k) for k in ks]
+
     def feature(self, k, value):
         return self.d.Feature(term=self.term(k), value=value)
 
@@ -249,7 +266,7 @@ class Builder:
             license=h.S(self.atom(), "lic") if c.bit() else None,
             rights=h.S(self.atom(), "rights") if c.bit() else None,
             owners=[self.user(1, c)] if lists else [],
-            tags=[self.tag(1), self.tag(2)] if lists else [],
+            tags=self.tags(1, 2) if lists else [],
             features=[self.feature(3, c.num()), self.feature(4, c.num())] if lists else [],
             notes=[self.note(c, user_k=2)] if lists else [],
         )
@@ -301,7 +318,7 @@ class Builder:
         return self.d.SoundEventAnnotation(
             uuid=self.uid(), sound_event=se,
             notes=[self.note(c, user_k=3)] if c.bit() else [],
-            tags=[self.tag(2), self.tag(5)] if c.bit() else [],
+            tags=self.tags(2, 5) if c.bit() else [],
             created_by=self.user(4, c) if c.bit() else None,
             created_on=h.DT(self.atom()),
         )
@@ -311,7 +328,7 @@ class Builder:
         return self.d.SequenceAnnotation(
             uuid=self.uid(), sequence=seq,
             notes=[self.note(c, user_k=8)] if c.bit() else [],
-            tags=[self.tag(6)] if c.bit() else [],
+            tags=self.tags(6, 5) if c.bit() else [],
             created_by=self.user(7, c) if c.bit() else None,
             created_on=h.DT(self.atom()),
         )
@@ -319,7 +336,7 @@ class Builder:
     def clip_annotation(self, clip, c, sound_events=(), sequences=()):
         return self.d.ClipAnnotation(
             uuid=self.uid(), clip=clip, sound_events=list(sound_events), sequences=list(sequences),
-            tags=[self.tag(7)] if c.bit() else [],
+            tags=self.tags(7, 2) if c.bit() else [],
             notes=[self.note(c, user_k=5)] if c.bit() else [],
             created_on=h.DT(self.atom()),
         )
